@@ -26,6 +26,11 @@ pub struct Cfg {
     pub tti: Option<u32>,
     pub hash: HashKind,
     pub tick_ms: u64,
+    /// length of the time unit `tick_ms` counts in, in nanoseconds: 1 000 000 (a
+    /// millisecond) unless a job asks for an odd unit, so that no reading, deadline or
+    /// duration is a whole number of milliseconds or microseconds (the model keeps
+    /// counting in units)
+    pub unit_ns: u64,
     /// S: start in the "beyond" housekeeping regime (no automatic maintenance
     /// until 64 ops are pending)
     pub beyond: bool,
@@ -63,6 +68,7 @@ impl Default for Cfg {
             tti: None,
             hash: HashKind::Spread,
             tick_ms: 1000,
+            unit_ns: 1_000_000,
             beyond: true,
             autosync: false,
             lazyadv: false,
@@ -107,7 +113,7 @@ impl Cfg {
             self.lru as u8,
             self.pure_check as u8,
             self.max_states,
-            if self.pre.is_empty() { String::new() } else { format!(",pre={}", self.pre) }
+            format!("{}{}", if self.unit_ns == 1_000_000 { String::new() } else { format!(",unit={}", self.unit_ns) }, if self.pre.is_empty() { String::new() } else { format!(",pre={}", self.pre) })
         )
     }
 
@@ -134,6 +140,7 @@ impl Cfg {
                 "tti" => c.tti = on(v).map(|x| x as u32),
                 "hash" => c.hash = HashKind::parse(v),
                 "tick" => c.tick_ms = v.parse().unwrap(),
+                "unit" => c.unit_ns = v.parse().unwrap(),
                 "beyond" => c.beyond = v == "1",
                 "autosync" => {
                     c.autosync = v == "1" || v == "2";
@@ -173,6 +180,11 @@ impl Cfg {
         } else {
             1
         }
+    }
+    /// n ticks as a duration of the mock clock
+    pub fn ticks(&self, n: u64) -> Duration {
+        let ns = n as u128 * self.tick_ms as u128 * self.unit_ns as u128;
+        Duration::new((ns / 1_000_000_000) as u64, (ns % 1_000_000_000) as u32)
     }
     pub fn ttl_ms(&self) -> Option<i64> {
         self.ttl.map(|t| t as i64 * self.tick_ms as i64)
@@ -386,7 +398,7 @@ pub enum Sut {
 
 impl Sut {
     pub fn new(cfg: &Cfg, hasher: TableHasher) -> Sut {
-        let tick = |n: u32| Duration::from_millis(n as u64 * cfg.tick_ms);
+        let tick = |n: u32| cfg.ticks(n as u64);
         match cfg.kind {
             Kind::U => {
                 let mut b = mini_moka::unsync::Cache::<K, V>::builder();
@@ -514,13 +526,13 @@ impl Sut {
                 }
                 Op::InsCP(_) | Op::GetCP(_) => panic!("harness: the unsync cache never clones a value"),
                 Op::Adv(n) => {
-                    clock.advance(Duration::from_millis(n as u64 * cfg.tick_ms));
+                    clock.advance(cfg.ticks(n as u64));
                     Obs::Unit
                 }
                 Op::Sync => Obs::Unit,
                 Op::IterAdv(n) => {
                     let it = c.iter();
-                    clock.advance(Duration::from_millis(n as u64 * cfg.tick_ms));
+                    clock.advance(cfg.ticks(n as u64));
                     let mut v: Vec<(u8, u32)> = it.map(|(k, v)| (k.k, v.id)).collect();
                     v.sort();
                     Obs::Items(v)
@@ -576,7 +588,7 @@ impl Sut {
                     }
                 }
                 Op::Adv(n) => {
-                    clock.advance(Duration::from_millis(n as u64 * cfg.tick_ms));
+                    clock.advance(cfg.ticks(n as u64));
                     Obs::Unit
                 }
                 Op::Sync => {
@@ -585,7 +597,7 @@ impl Sut {
                 }
                 Op::IterAdv(n) => {
                     let it = c.iter();
-                    clock.advance(Duration::from_millis(n as u64 * cfg.tick_ms));
+                    clock.advance(cfg.ticks(n as u64));
                     let mut v: Vec<(u8, u32)> = it.map(|r| (r.key().k, r.value().id)).collect();
                     v.sort();
                     Obs::Items(v)
